@@ -83,3 +83,11 @@ Theorem C12_generator_not_allowed :
   allowed stdlib_names [w_pkg] [w_pkg; w_sub] (mkImp 0 [w_pkg; w_sub; w_x]) = true.
 Proof. exact allowed_rejects_generator. Qed.
 Print Assumptions C12_generator_not_allowed.
+
+(* … also over histories: the previous content fs of the core directory (stale, edited, truncated, missing files)
+   is irrelevant; the latest write (first match) wins *)
+Theorem C12_verbatim_history : forall B (src : list str * str -> B) (fs : list (modpath * B)) m stem dst,
+  In (m, stem, dst) runtime_files ->
+  lookup_path dst (emit_core runtime_files src ++ fs) = Some (src (m, stem)).
+Proof. exact core_verbatim_history. Qed.
+Print Assumptions C12_verbatim_history.
